@@ -15,8 +15,9 @@ from vlib import Broken, NCPU, log
 PROPS = {"C17": "exploration", "C18": "exploration"}
 HARNESS = ["zz_verif_utf8_test.go"]
 OBS_RE = re.compile(r'<<(\d+), "(\w+)">>')
+NSEQ = 9   # kinds of invalid content in the harness (vu8Seqs)
 CONV_ROOT = "temporal.api.workflowservice.v1.RespondWorkflowTaskFailedRequest"
-_NOTE = ("Trusted: TLC; wire bytes are produced by marshalling a placeholder and overwriting it with raw invalid sequences (5 kinds); "
+_NOTE = ("Trusted: TLC; wire bytes are produced by marshalling a placeholder and overwriting it with raw invalid sequences (9 kinds: invalid runs of 4, 3, 2, 1 bytes and two runs); "
          "the byte-level clause 'only the offending bytes are replaced, everything else intact' is decided by comparing with a reference "
          "message / the standard codec's decode inside the harness (TLC has no business decoding UTF-8) - stated limit of DESIGN 3.12.")
 MANIFEST = {
@@ -30,8 +31,8 @@ MANIFEST = {
     "C17": dict(engine="Utf8Codec", category="exploration", design_ref="3.12",
                 technique="TLA+ decision spec of RepairUTF8Codec.Unmarshal over abstract wire classes (Utf8Codec.tla), enumerated by TLC; each "
                           "class realised on real wire bytes and run through the real codec and the standard codec; judged by TLC (Utf8Obs.tla)",
-                text="All 72 abstract classes (convertible or not, 0-2 invalid failure messages, invalid UTF-8 elsewhere, chain depth in/at/over "
-                     "the maximum, intact/truncated wire) x 5 kinds of invalid byte sequences: transparent on everything the standard codec "
+                text="All 216 abstract classes (convertible or not, what the process decoded before (nothing / over-deep / repaired), 0-2 invalid failure messages, invalid UTF-8 elsewhere, chain depth in/at/over "
+                     "the maximum, intact/truncated wire) x 9 kinds of invalid content (runs of 4,3,2,1 bytes, two runs): transparent on everything the standard codec "
                      "accepts, repaired (U+FFFD, rest intact) where the design says so, an error - never a corrupted message - otherwise.",
                 note=_NOTE),
 }
@@ -59,7 +60,11 @@ def run(c, a):
                     d = json.loads(d)
             except ValueError:
                 return
-            obligs.append({"id": len(obligs) + 1, "kind": "path", "type": d["root"]["method"], "path": d["path"]})
+            # each path with every kind of invalid content (run lengths 4,3,2,1, two runs); paths that reach a failure directly also with
+            # the failure message at the end of a cause chain of exactly the supported depth
+            for deep in ((False, True) if "cause" not in d["path"] else (False,)):
+                for seq in range(NSEQ):
+                    obligs.append({"id": len(obligs) + 1, "kind": "path", "type": d["root"]["method"], "path": d["path"], "deep": deep, "seq": seq})
         r = c.tlc("SchemaWalk", "SchemaWalk", "walk_fail.cfg", workers=8, timeout=900, line_cb=on_line,
                   files={"SchemaGen.tla": schema}, name="walk-fail")
         if not r.ok or len(obligs) < 50:
@@ -87,12 +92,13 @@ def run(c, a):
             except ValueError:
                 pass
         r = c.tlc("Utf8Codec", "Utf8Codec", "classes.cfg", workers=1, timeout=120, line_cb=on_class, name="classes")
-        if len(classes) < 70:
+        if len(classes) < 200:
             raise Broken("class enumeration failed")
-        reps = 5   # one per kind of invalid byte sequence (chosen by id modulo 5)
+        reps = NSEQ   # one per kind of invalid content
         for cl in classes:
             for k in range(reps):
-                obligs.append({"id": len(obligs) + 1, "kind": "class", "type": CONV_ROOT if cl["root"] == "conv" else unconv, "path": [], "class": cl})
+                obligs.append({"id": len(obligs) + 1, "kind": "class", "type": CONV_ROOT if cl["root"] == "conv" else unconv, "path": [], "class": cl,
+                               "seq": k})
         extra.update({"classes": len(classes), "byte_sequence_kinds": reps, "unconvertible_sample": unconv})
     nshard = min(NCPU, max(1, len(obligs) // 200))
     files = []
@@ -136,7 +142,7 @@ def run(c, a):
                        "evaluations": len(recs), "distinct_nontrivial": len(obligs) if c.pid == "C18" else extra.get("classes", 0),
                        "exhaustive": True,
                        "rule": "C18: every (convertible root type, structural path to a failure message) of the legacy struct graph; "
-                               "C17: every abstract wire class x 5 invalid byte-sequence kinds"})
+                               "C17: every abstract wire class x 9 kinds of invalid content; C18 paths x 9 kinds, plus exact-depth chains, after an over-deep message of the same type"})
     c.coverage.update(extra)
     samples = [{"obligation": obligs[0], "record": recs[0]}, {"obligation": obligs[-1], "record": recs[-1]}]
     return c.finish(samples)
